@@ -508,6 +508,11 @@ func expiryRules(c *core.Ctx, dec *core.Fn) {
 	want := map[int64]string{0xfd: "lin(1000*" + le + "Uint32(d.intBuf))", 0xfc: le + "Uint64(d.intBuf)"}
 	var stray []string
 	byOp := map[int64][]string{}
+	for i := range origins {
+		// UintN(b[:k]) / UintN(b[0:k]) reads the first N/8 bytes of b like UintN(b) does
+		// (k >= N/8, or the call would panic): the prefix slice is transparent
+		origins[i].role = prefixSliceRe.ReplaceAllString(origins[i].role, "d.intBuf)")
+	}
 	for _, o := range origins {
 		switch {
 		case o.role == "=0":
@@ -545,6 +550,8 @@ func expiryRules(c *core.Ctx, dec *core.Fn) {
 		}
 	}
 }
+
+var prefixSliceRe = regexp.MustCompile(`d\.intBuf\[(=0)?:(=[0-9]+)?\]\)`)
 
 var expiryShapeRe = regexp.MustCompile(`^(lin\(-?[0-9]+\*)?encoding/binary\.(LittleEndian|BigEndian)\.Uint(16|32|64)\(d\.intBuf(\[[^\]]*\])?\)\)?$`)
 
